@@ -270,7 +270,7 @@ def job_fine(a, b, k_lo, k_hi):
             f2 = sched.FineExec(body_a, body_b, k, _filter).go()
             if f2.res != f.res:
                 raise AssertionError('fine schedule not deterministic at k=%d' % k)
-            res.fail('interference (line granularity) in %s' % (f.where[2] if f.where else '?'),
+            res.fail('interference (line granularity) statements=%d|%d' % (a[0], b[0]),
                      {'kind': 'fine', 'a': list(a), 'b': list(b), 'k': k, 'texts': [POOL[a[0]], POOL[b[0]]]},
                      'A preempted at line event %d (%r): A->%r B->%r; alone %r' % (k, f.where, f.res[0], f.res[1], exp),
                      size=1000 + k)
